@@ -17,5 +17,5 @@ run_one() {
   elif echo "$out" | grep -q "rule=$exp "; then echo "$n caught by $exp"; else echo "$n NOT-CAUGHT expected $exp"; fi
 }
 export -f run_one
-ls -d /verif/seeded/*/ | sed 's#/$##' | xargs -P 8 -I{} bash -c "run_one {} $T"
+ls -d /verif/seeded/${1:-}*/ | sed 's#/$##' | xargs -P 8 -I{} bash -c "run_one {} $T"
 rm -rf $T; git -C /repo worktree prune
